@@ -138,8 +138,7 @@ F10(r) ==
         v.cout = "ok" /\ v.dok /\ AllBound(r.tree, r.envs[f[4]]) /\
         LET run == v.runs[f[4]] IN
         \/ ~Match(v.dtree, r.envs[f[4]], run.eff, v.m.fe)
-        \/ \E k \in Idx(run.reps) : ~Match(v.dtree, r.envs[f[4]], run.reps[k].eff, v.m.fe)
-        \/ \E k \in Idx(run.reps) : Len(run.reps[k].eff) # Len(run.eff)}
+        \/ \E k \in Idx(run.reps) : ~Match(v.dtree, r.envs[f[4]], run.reps[k].eff, v.m.fe)}
      \cup
      \* (c') the deferred failure surfaces from Eval exactly when plain evaluation reaches it
      {f \in {<<"C10", r.id, vi, ei, "deferred">> : vi \in Idx(r.vars), ei \in Idx(r.envs)} :
